@@ -29,7 +29,7 @@ func vPanics(f func()) bool                     { panic("intrinsic") }
 func vSame(a, b any) bool                       { panic("intrinsic") }
 func vSig(name string, v int)                   { panic("intrinsic") }
 func vYield()                                   { panic("intrinsic") }
-func vMon()                                     { panic("intrinsic") }
+func vMon(f func())                             { panic("intrinsic") }
 func vBlockUntil(f func() bool)                 { panic("intrinsic") }
 func vQuiesce() int                             { panic("intrinsic") }
 func vThreadID() int                            { panic("intrinsic") }
